@@ -7,7 +7,7 @@ META = {
     'level': 'proof',
     'rule': 'all regexp trees with <=2 (quick) / <=3 (thorough) operator nodes over {a,b} x all words of length <=3 (4), '
             'then seeded random trees of size <=12; non-trivial = tree containing a star or a 0/1 inside a product/sum; '
-            'distinct by tree',
+            'distinct by tree; the simplifier also on trees whose symbols have several letters (language compared on strings)',
     'assumptions': ['symbols are single characters (Python compares w == r.symbol on strings)'],
     'trusted_base': ['Spec: Gamba/Spec/Regexp.lean (Lang)'],
 }
@@ -55,6 +55,12 @@ def cases(ctx):
         else:
             r = ['star', ['sum', [o1, x, ['star', y]], [o2, x, ['star', y]]]]
         yield {'r': r, 'words': gen.all_words(Sig, 4)}
+    # identifiers of several letters (parse_regexp allows them): a symbol is matched against the whole word, w == symbol
+    for i in range(80 if not thorough else 800):
+        Sg = rng.choice([['ab', 'a', 'b'], ['x1', 'x2'], ['ab', 'ba'], ['abc', 'a']])
+        r = gen.random_regexp(rng, rng.randint(0, 8), Sg)
+        if not thorough or ctx.mine(i):
+            yield {'r': r, 'words': [], 'multi': True}
     for i in range(800 if not thorough else 8000):
         Sg = rng.choice([['a', 'b'], ['a'], ['0', '1'], ['a', 'b', 'c']])
         r = gen.random_regexp(rng, rng.randint(2, 12), Sg)
@@ -67,6 +73,31 @@ def cases(ctx):
             ws.append('z')
         if not thorough or ctx.mine(i):
             yield {'r': r, 'words': ws}
+
+
+def string_matches(r, w):
+    """membership of the STRING w when symbols may have several letters (a symbol denotes the one word that is its name)"""
+    def ends(r, i):
+        t = r[0]
+        if t == 'zero':
+            return set()
+        if t == 'one':
+            return {i}
+        if t == 'sym':
+            return {i + len(r[1])} if w.startswith(r[1], i) else set()
+        if t == 'sum':
+            return ends(r[1], i) | ends(r[2], i)
+        if t == 'cat':
+            return {k for j in ends(r[1], i) for k in ends(r[2], j)}
+        seen, todo = {i}, [i]
+        while todo:
+            j = todo.pop()
+            for k in ends(r[1], j):
+                if k not in seen:
+                    seen.add(k)
+                    todo.append(k)
+        return seen
+    return len(w) in ends(r, 0)
 
 
 def lean_requests(c):
@@ -99,10 +130,17 @@ def judge(ctx, c, answers):
     # exact equivalence via Thompson-free product of derivative automata is overkill: use the bounded check as search)
     Sg = sorted(oracles.rx_symbols(c['r'])) or ['a']
     bad = None
-    for w in gen.all_words(Sg, 5 if len(Sg) <= 2 else 4):
-        if oracles.rx_matches(c['r'], w) != oracles.rx_matches(sspec, w):
-            bad = w
-            break
+    if c.get('multi'):
+        chars = sorted({ch for x in Sg for ch in x})
+        for w in gen.all_words(chars, 5 if len(chars) <= 2 else 4):
+            if string_matches(c['r'], w) != string_matches(sspec, w):
+                bad = w
+                break
+    else:
+        for w in gen.all_words(Sg, 5 if len(Sg) <= 2 else 4):
+            if oracles.rx_matches(c['r'], w) != oracles.rx_matches(sspec, w):
+                bad = w
+                break
     if bad is not None:
         ctx.violation('simplify-changes-language', {'case': dict(c, words=[bad]), 'simplified': sspec})
     size0, size1 = regexp_size(r), regexp_size(s['ok'])
